@@ -320,6 +320,45 @@ theorem C05_ci_idempotent_bytes (parse : Str → Except Err PyVal) (doc : PyVal)
 theorem C05_ci_faithful_product_not_internal (holder : PyVal) (r : Release) (h : Legacy.releaseDe03 holder = .ok r) :
     r.internal = false := (Legacy.releaseDe03_valid holder r h).2
 
+/-- **faithful, forest below 1.0 — top level** (any number of variants, any depth): detecting the top level from UID prefixes
+(`rsplit("-", 1)` head not a key) selects exactly the keys the explicit child lists leave unreferenced, *iff-condition*
+stated on the table: a key is referenced as a child exactly when the part before its last dash is a key.  (Violated by a
+dashed top-level UID beside its prefix — not expressible by prefixes; the acceptance mutant `< (1,0)` → `<= (1,0)` lives there.) -/
+theorem C05_ci_faithful_tops (keys cs : List Str)
+    (h : ∀ u ∈ keys, cs.contains u = true ↔ ∃ hd, Legacy.legacyHead u = some hd ∧ keys.contains hd = true) :
+    keys.filter (Legacy.isLegacyTop keys) = keys.filter (fun u => !cs.contains u) :=
+  Legacy.tops_legacy_eq keys cs h
+
+/-- **faithful, forest below 1.0 — children** (any number of children): for an entry whose `variants` list was removed by the
+down-conversion, the legacy reader (gate `< (1, 0)`) looks its children up under exactly the keys, in exactly the order, the
+current reader uses for the entry with the list — given a table in sorted key order (what `sort_keys=True` writes), every
+listed child present, and nothing else under the prefix `uid-`.  The last condition is what fails from depth 3 on (a
+grandchild `uid-c-g` also starts with `uid-`): F32, `C05_ci_legacy_depth3_refused_witness`.  Not proved: the assembly of
+these two facts through `buildL` into `deserialize (down d) = deserialize d` for depth ≤ 2 (validated per case). -/
+theorem C05_ci_faithful_children (g : Legacy.Gates) (hg : g.variant = true) (full data data' : PyVal) (vuid : Str) (ids : List Str)
+    (hd : data.get? k%"variants" = some (strList ids)) (hd' : data'.get? k%"variants" = none)
+    (hs : SSorted full.keys)
+    (hex : ∀ k ∈ full.keys, Str.startsWith k (vuid ++ ['-']) = true ↔ ∃ i ∈ ids, k = vuid ++ '-' :: i)
+    (hin : ∀ i ∈ ids, vuid ++ '-' :: i ∈ full.keys) :
+    Legacy.kidKeysL g full data' vuid vuid = Legacy.kidKeysL Legacy.Gates.current full data vuid vuid :=
+  Legacy.kidKeys_faithful g hg full data data' vuid ids hd hd' hs hex hin
+
+/-- the hypotheses are satisfiable: the table of `wCI02` in sorted order, `Server` with its two children -/
+example :
+    let keys : List Str := [k%"Client-X", k%"Server", k%"Server-LP", k%"Server-optional"]
+    let cs : List Str := [k%"Server-LP", k%"Server-optional"]
+    (∀ u ∈ keys, cs.contains u = true ↔ ∃ hd, Legacy.legacyHead u = some hd ∧ keys.contains hd = true)
+    ∧ SSorted keys
+    ∧ (∀ k ∈ keys, Str.startsWith k (k%"Server" ++ ['-']) = true ↔ ∃ i ∈ [k%"LP", k%"optional"], k = k%"Server" ++ '-' :: i)
+    ∧ (∀ i ∈ [k%"LP", k%"optional"], k%"Server" ++ '-' :: i ∈ keys) := by
+  refine ⟨?_, by unfold SSorted; decide, ?_, by decide⟩
+  · intro u hu
+    simp only [List.mem_cons, List.not_mem_nil, or_false] at hu
+    rcases hu with rfl | rfl | rfl | rfl <;> decide
+  · intro k hk
+    simp only [List.mem_cons, List.not_mem_nil, or_false] at hk
+    rcases hk with rfl | rfl | rfl | rfl <;> decide
+
 /-- a 0.2 document: no date/respin, `product` section without type/internal, children by UID prefix only, a layered
 product with its own `product` section -/
 def wCI02 : PyVal :=
